@@ -10,5 +10,5 @@ RULE = ("cases = (grid/game env, entry incl. non-square and tiny grids, key, pla
         "that differ from their predecessor, distinct by state digest")
 ASSUMPTIONS = ["PacMan ghost_locations rows are (column, row) while player_locations is (x=row, y=column) (validated, DESIGN 2.7)"]
 _P = mp.HistoryProp(PROPERTY, "invariants", mp.C07Mon, n_quick=30, n_thorough=300, max_len=60,
-                    styles=("legalish", "chaos", "survive", "legal", "late_illegal", "solveish"))
+                    styles=("legalish", "chaos", "survive", "legal", "late_illegal", "solveish", "crowded"))
 _P.export(globals())
